@@ -1094,6 +1094,12 @@ func c16(c *core.Ctx) {
 		c.Note("intPool.put: %d call sites, %d recycled values, all owned unless reported", nPut, nArg)
 	})
 
+	c.Clause("C16.10", "a price is never a wrapped product: in the pricing functions of the VM (jump-table gas functions, memoryGasCost, callGas, RequiredGas of the native contracts) a uint64 multiplication has a constant operand or operands bounded by a dominating comparison; everything else goes through math.SafeMul or big.Int (a product that wraps to 0 makes an arbitrarily large native-contract run free)")
+	c.Run("no-raw-gas-product", func() { c16NoRawGasProduct(c) })
+
+	c.Clause("C16.9", "a failed call leaves the state as it was only if undo is exact: the change-journal clauses of C07 (undo covers do, undo/redo write through the journalling sibling's setters, old values recorded before the write) are evaluated here as well")
+	c07(c)
+
 	c.NotDecidedf("termination and gas ≤ limit as arithmetic facts (that costs are positive, that the 63/64 forwarding and the refund never exceed what was deducted, absence of uint64 wrap-around in gas arithmetic)")
 	c.NotDecidedf("correctness of individual opcodes and gas functions (stack effects, memory bounds inside an operation, that an operation's declared stack requirement matches what it pops)")
 	c.NotDecidedf("precompile behaviour on odd inputs (panics inside bn256/modexp/json decoding); only their gas bracket and the closed set of state-writing precompiles are decided; setRewardValue writes storage without consulting readOnly and relies on the caller == RewardManager gate in run()")
